@@ -1,7 +1,7 @@
 (* Extract.v -- extraction of the executable model and spec oracles to OCaml.
    ExtrOcamlBasic only; numbers stay the Coq datatypes. *)
 From Coq Require Import Extraction ExtrOcamlBasic.
-From Lhasa Require Import Base Generated Crc16 DecBase BitReader Null Lzs Lz5 Decoder S_Larc Lh1 Lzhuf PmaCommon Pm2 Pm1 LhNew InputStream Header BasicReader Fs FsRun.
+From Lhasa Require Import Base Generated Crc16 DecBase BitReader Null Lzs Lz5 Decoder S_Larc Lh1 Lzhuf PmaCommon Pm2 Pm1 LhNew InputStream Header BasicReader Fs FsRun S_LhNew.
 Extraction Language OCaml.
 Set Extraction Optimize.
 Extraction "../harness/ml/model.ml"
@@ -24,4 +24,6 @@ Extraction "../harness/ml/model.ml"
   mk_source lha_input_stream_new lha_input_stream_read lha_input_stream_skip
   lha_file_header_read mktime_utc collapse_path full_path
   lha_basic_reader_new lha_basic_reader_next_file lha_basic_reader_read_compressed
-  run_ops fs_init dump run_case.
+  run_ops fs_init dump run_case
+  lhn_lit lhn_copy lz77_expand lz77_expand_ref canonical_code complete_code tab_code
+  v_lh4 v_lh5 v_lh6 v_lh7 v_lhx v_lk7 wf_block wf_stream block_bits serialise_stream serialise_bytes denote auto_stream.
